@@ -449,5 +449,5 @@ def build_for(prop, checks, tier, level_text, extra=None, versions=None, only=No
                     "rejected lines (C01 shows they have no effect)"],
         "stubs": ["logging -> no-op", "time.localtime/calendar.timegm -> uninterpreted",
                   "connection object / event callback -> recording fakes"],
-        "budget_s": 1500 if q else 7200,
+        "budget_s": 3000 if q else 14400,
     }
